@@ -5,7 +5,10 @@ import (
 	"fmt"
 	"os"
 	"strconv"
+	"strings"
 	"time"
+
+	"golang.org/x/tools/go/packages"
 )
 
 func main() {
@@ -39,6 +42,31 @@ func main() {
 		}
 		for _, d := range dropped {
 			fmt.Println("dropped:", d)
+		}
+	case "runtest":
+		// qedvc runtest <import path> <file with TestQedvcReplay>: run a hand-written
+		// demonstration in-package against the real code (same overlay as a replay)
+		if len(os.Args) < 4 {
+			fmt.Println("usage: qedvc runtest <import path> <test file>")
+			os.Exit(2)
+		}
+		ov, _, err := Skeleton()
+		if err != nil {
+			fmt.Println(err)
+			os.Exit(1)
+		}
+		src, err := os.ReadFile(os.Args[3])
+		if err != nil {
+			fmt.Println(err)
+			os.Exit(1)
+		}
+		scratch, _ := os.MkdirTemp("", "qedvc-runtest")
+		defer os.RemoveAll(scratch)
+		eng := &Engine{prog: &Program{Overlay: ov, Pkgs: map[string]*packages.Package{}}}
+		r := runReplayTest(eng, os.Args[2], string(src), scratch)
+		fmt.Println(r.Output)
+		if !strings.Contains(r.Output, "\nok ") && !strings.HasPrefix(r.Output, "ok ") && !strings.Contains(r.Output, "--- PASS") {
+			os.Exit(1)
 		}
 	case "sweep":
 		fs := flag.NewFlagSet("sweep", flag.ExitOnError)
